@@ -390,20 +390,24 @@ func (t *genTable[Obj]) RegisterInitializer(txn WriteTxn, name string) func(Writ
 	}
 
 	init.pending = append(init.pending, name)
-	var once sync.Once
 	return func(txn WriteTxn) {
-		once.Do(func() {
-			table := txn.unwrap().tableEntries[t.pos]
-			if !table.locked {
-				panic(fmt.Sprintf("RegisterInitializer/MarkDone: Table %q not locked for writing", t.table))
-			}
-			init := *table.init
-			init.pending = slices.DeleteFunc(
-				slices.Clone(init.pending),
-				func(n string) bool { return n == name },
-			)
-			table.init = &init
-		})
+		table := txn.unwrap().tableEntries[t.pos]
+		if !table.locked {
+			panic(fmt.Sprintf("RegisterInitializer/MarkDone: Table %q not locked for writing", t.table))
+		}
+		// Calling this more than once is fine, but whether it already took
+		// effect is decided by the state of the transaction, not by whether it
+		// was called before: an earlier call may have been made in a
+		// transaction that was aborted.
+		if table.init == nil || !slices.Contains(table.init.pending, name) {
+			return
+		}
+		init := *table.init
+		init.pending = slices.DeleteFunc(
+			slices.Clone(init.pending),
+			func(n string) bool { return n == name },
+		)
+		table.init = &init
 	}
 }
 
